@@ -123,7 +123,7 @@ def cp_weights(rank, w):
         return None
     if w == "ones":
         return np.ones(rank)
-    return np.array([2.0, 0.5, 1.5, 0.25][:rank])
+    return np.array([2.0, 0.75, 1.5, 0.25][:rank])  # product != 1: the geometric-mean rescaling is visible
 
 
 def cp_dec(c, rank=2, w="none", nonneg=False, shape=None, k=3, only=None):
